@@ -825,6 +825,32 @@ def rule_externname(ctx, prop: str) -> RuleResult:
             res.ob(ok2)
             if not ok2:
                 res.add(Finding("EXTERNNAME", EXT, comp.lineno, f"{c.name}.compile", f"call:{shown}", f"{c.name}.compile does not call the function `{shown}` that globl defines"))
+    # C's f-suffixed math functions take and return float.  An extern that accepts any real scalar but
+    # always emits the f-suffixed function narrows an f64 operand to float and widens the result again —
+    # silently coercing code, which C15 says must not be produced (choose the function by precision, or
+    # reject the precision in typecheck)
+    FLOAT_ONLY = {"expf", "fmaxf", "fminf", "sqrtf", "sinf", "cosf", "tanf", "fabsf", "logf", "powf", "floorf", "ceilf", "tanhf", "erff"}
+    for c in sorted(m.classes.values(), key=lambda c: c.node.lineno):
+        comp = c.methods.get("compile")
+        tc = c.methods.get("typecheck")
+        if comp is None or tc is None:
+            continue
+        for n in comp.body_nodes():
+            if not (isinstance(n, ast.Return) and isinstance(n.value, ast.JoinedStr) and n.value.values and isinstance(n.value.values[0], ast.Constant)):
+                continue
+            head = str(n.value.values[0].value).lstrip()
+            callee = head.split("(")[0]
+            if callee not in FLOAT_ONLY:
+                continue
+            res.instances += 1
+            res.nontrivial += 1
+            restricted = any(isinstance(k, ast.Attribute) and k.attr in ("f32", "F32") for k in tc.body_nodes())
+            res.ob(restricted)
+            res.sample(f"{c.name}.compile always emits `{callee}` — typecheck restricts the operands to f32: {restricted}")
+            if not restricted:
+                res.add(Finding("EXTERNNAME", EXT, n.lineno, f"{c.name}.compile", f"float-only:{callee}",
+                                f"{c.name} accepts any real scalar but always emits the float function `{callee}`: an f64 operand is narrowed to float and the result widened again "
+                                f"(`y[i] = {callee}((double)(x[i]))`) — silently coercing code"))
     if n_ext < 6:
         raise AnalysisError(f"EXTERNNAME: expected >= 6 externs with globl/compile in libs/externs.py, found {n_ext}")
     res.floor = 6
